@@ -4,7 +4,7 @@ READY = True
 SPEC = {
     "targets": ["Properties/C20.vo", "Run/C20.vo"],
     "theorems": {"Properties.C20": ["C20_dependency_iff", "C20_details_exact", "C20_removed_detected", "C20_removed_reaches_check", "C20_removed_with_dependants_reported", "C20_dispatch_tables", "C20_nonvacuous"]},
-    "harness_args": lambda tier: ["C20", "--n", 250 if tier == "quick" else 5000, "--histories", 200 if tier == "quick" else 4000,
+    "harness_args": lambda tier: ["C20", "--n", 250 if tier == "quick" else 5000, "--histories", 200 if tier == "quick" else 3000,
                                   "--inproc", 40 if tier == "quick" else 300],
     "search_args": lambda tier: ["C20", "--n", 600, "--histories", 600, "--inproc", 20],
     "level": "proof",
@@ -15,8 +15,13 @@ SPEC = {
         "the real RuleDependencyCheck.Check run on every entry of generated entry sets (real strict parser, real PromQL parser and "
         "utils.HasVectorSelector, random states, symlink copies, path/rule/syntax errors) vs Model/Dependency.check, byte-exact details text",
         "end to end: `pint ci --json` on scratch git repositories whose branch removes subsets of rules/files with random cross references "
-        "(recording->recording/alert, ALERTS/ALERTS_FOR_STATE{alertname=...}, decoy matchers, duplicate providers, several files, renames, replacements) "
-        "vs the generator's reference graph (implementation-level oracle); this also exercises the scan.go dispatch and the Removed state of C03",
+        "(recording->recording/alert, ALERTS/ALERTS_FOR_STATE{alertname=...} also as second selector, decoy matchers, duplicate providers, several "
+        "files, renames, replacements, unrelated invalid rules (rule-level errors) and PromQL syntax errors in the same files, a file renamed onto "
+        "the path of a deleted file of providers) vs the generator's reference graph (implementation-level oracle); this also exercises the "
+        "scan.go dispatch and the Removed state of C03",
+        "pipeline correspondence (c): the real git.Changes + GlobFinder + GitBranchFinder.Find run in-process on those repositories, then the real "
+        "routing and the real Check on every entry of the final list, vs the composed model Model/Dependency.pipeline (Model/GitBranch.find, "
+        "then report) on the same inputs: final states and problems byte-exact",
         "modelled not verified: rule_dependency.go is hand-modelled; the PromQL parser (selector list of an expression), the yaml parser, git and the "
         "change attribution (C03) are inputs or exercised end to end only",
     ],
@@ -25,6 +30,9 @@ SPEC = {
         "(selector Name is empty) -- a stated reading, such cases are counted and reported separately, never as violations",
         "the dispatch rule (state Removed only, removed entries with errors skipped) is modelled from scan.go/Meta().States and validated end to end; "
         "rule/dependency is assumed enabled by the configuration",
+        "covered (named hypothesis of C20_removed_reaches_check / C20_removed_with_dependants_reported): every non-Removed branch entry without a "
+        "rule error has a glob entry at its path and rule position (GlobFinder lists the HEAD tree); tested on every in-process history of the C03 "
+        "check (histogram key hyp:glob-covers-head-entries-holds)",
     ],
 }
 
@@ -38,11 +46,14 @@ MANIFEST = {
             "iff it is Removed, dispatched (no path/rule error), not a symlink copy, has no non-removed valid entry of its kind and name, and some "
             "remaining rule selects its metric / its alert through ALERTS{alertname=}; the listed (name, path:line) keys are exactly those of the "
             "dependants, without repeats, sorted by (path, line, name), and the details text is the rendering of that list; a base rule with no "
-            "identical or same-named HEAD rule in a changed file is Removed (from the C03 model). Tied to the code every run by differential "
-            "execution of the real check on generated entry sets (byte-exact details) and by `pint ci --json` on scratch repositories against the "
-            "generator's reference graph.",
+            "identical or same-named HEAD rule in a changed file is Removed (C03 model), that Removed entry reaches the list Find returns unchanged "
+            "(under the tested hypothesis that the glob list covers the HEAD entries), and the composition (model of `pint ci` for this check = Find, "
+            "then the check on every final entry) reports on it exactly under the stated conditions. Tied to the code every run by differential "
+            "execution of the real check on generated entry sets (byte-exact details), by the pipeline correspondence (real git.Changes + GlobFinder "
+            "+ Find + routing + Check in-process vs the composed model) and by `pint ci --json` on scratch repositories against the generator's "
+            "reference graph. Only tested, not proved: faithfulness of the hand-written models, the PromQL selector lists, git.",
     "note": "Coq 8.16.1 kernel+VM, no axioms; hand-written model validated by differential execution; PromQL/yaml parsers, git and C03's change "
             "attribution are inputs or covered end to end only; the {__name__=\"x\"} spelling is a stated reading reported separately.",
-    "technique": "Coq proofs over lists (dedup invariant, insertion-sort sortedness/permutation) + differential correspondence on real entries "
-                 "+ scratch-git end-to-end oracle",
+    "technique": "Coq proofs over lists (dedup invariant, insertion-sort sortedness/permutation, merge invariant) + differential correspondence on "
+                 "real entries + pipeline correspondence on git histories + scratch-git end-to-end oracle",
 }
